@@ -72,6 +72,7 @@ func init() {
 				{Scenario: "c04_range", Params: mustJSON(RangeParams{Commit: true, Still: true}), Bound: 0},
 				{Scenario: "c04_race", Params: mustJSON(RaceParams{WithSaver: false}), Bound: b, Shards: 4},
 				{Scenario: "c04_race", Params: mustJSON(RaceParams{WithSaver: true}), Bound: b, Shards: 8},
+				{Scenario: "c16_hist", Params: mustJSON(MetricParams{Depth: 3}), Bound: 0, Shards: 8, Note: "the position exposed through the metrics equals the tracked one after every step, also in the sessions after a rebalance"},
 				{Scenario: "reopen_life", Params: mustJSON(LifeParams{Oracle: "position", Segs: 2}), Bound: 0, Shards: 8, Note: "acknowledgements of events delivered before a transient end / fail-over / rollback arriving after the re-open (stale acknowledgements naming the old branch), in every combination with acknowledgements of the new segment"},
 			}
 		},
